@@ -255,6 +255,41 @@ WideLaw == \A i \in 1..Len(WideSeq) :
   \/ (WideOut(i).status = "value" /\ WideOut(i).v.es[1] = IntV(IF WideSeq[i] = "hidden-union" THEN 0 ELSE 1))
   \/ (PrintT(<<"WIDELAW", WideSeq[i], WideOut(i)>>) /\ FALSE)
 
+\* A `mut any' cell may hold any value, so it may hold a cell - itself included.  `c = v' stores v and yields v whatever v is:
+\* after `c = c' the content of c IS c (cells compare by identity), the assignment yields c, and a write through what is
+\* read from c lands in c.
+SelfProg(k) ==
+  CASE k = "direct" ->
+         <<Set("c", MutE(WAny, I(0))), Set("y", Asg("=", V("c"), V("c"))),
+           TupE(<<Bin("==", Deref(V("c")), V("c")), Bin("==", V("y"), V("c")), Bin("!=", Deref(V("c")), I(0))>>)>>
+    [] k = "alias" ->
+         <<Set("c", MutE(WAny, I(0))), Set("d", V("c")), Set("y", Asg("=", V("d"), V("c"))),
+           TupE(<<Bin("==", Deref(V("c")), V("c")), Bin("==", V("y"), V("d")), Bin("==", Deref(V("d")), V("c"))>>)>>
+    [] k = "param" ->
+         <<Set("c", MutE(WAny, I(0))), FnDecl("store", <<P("a", WMut(WAny)), P("b", WAny)>>, WAny, <<Ret(Asg("=", V("a"), V("b")))>>),
+           Set("y", CallE(V("store"), <<V("c"), V("c")>>)),
+           TupE(<<Bin("==", Deref(V("c")), V("c")), Bin("==", V("y"), V("c")), Bin("!=", Deref(V("c")), I(0))>>)>>
+    [] k = "write-through" ->
+         <<Set("c", MutE(WAny, I(1))), Asg("=", V("c"), V("c")),
+           IfSet("x", WMut(WAny), Deref(V("c")), Block(<<Asg("=", V("x"), I(7))>>), NoneV),
+           TupE(<<Bin("==", Deref(V("c")), I(7)), B(TRUE), B(TRUE)>>)>>
+    [] k = "in-array" ->
+         <<Set("c", MutE(WAny, I(0))), Asg("=", V("c"), ArrE(<<V("c")>>)),
+           IfSet("arr", WArr(WAny), Deref(V("c")), Block(<<TupE(<<Bin("==", At(V("arr"), I(0)), V("c")), B(TRUE), B(TRUE)>>)>>),
+                 Block(<<TupE(<<B(FALSE), B(FALSE), B(FALSE)>>)>>))>>
+    [] k = "two-cells" ->
+         <<Set("a", MutE(WAny, I(1))), Set("b", MutE(WAny, I(2))), Asg("=", V("a"), V("b")), Set("y", Asg("=", V("b"), V("a"))),
+           TupE(<<Bin("==", Deref(V("a")), V("b")), Bin("==", Deref(V("b")), V("a")), Bin("==", V("y"), V("a"))>>)>>
+    [] k = "hidden-callee" ->
+         <<Set("c", MutE(WAny, I(0))), FnDecl("idc", <<P("v", WMut(WAny))>>, WMut(WAny), <<Ret(V("v"))>>),
+           Set("y", Asg("=", CallE(V("idc"), <<V("c")>>), CallE(V("idc"), <<V("c")>>))),
+           TupE(<<Bin("==", Deref(V("c")), V("c")), Bin("==", V("y"), V("c")), B(TRUE)>>)>>
+SelfSeq == <<"direct", "alias", "param", "write-through", "in-array", "two-cells", "hidden-callee">>
+SelfOut(i) == Outcome(Run(SelfProg(SelfSeq[i]), 2000))
+SelfLaw == \A i \in 1..Len(SelfSeq) :
+  \/ (SelfOut(i).status = "value" /\ SelfOut(i).v = TupV(<<BoolV(TRUE), BoolV(TRUE), BoolV(TRUE)>>))
+  \/ (PrintT(<<"SELFLAW", SelfSeq[i], SelfOut(i)>>) /\ FALSE)
+
 WatchNames == <<"c", "other", "s0", "y1", "s1", "y2", "s2">>
 HSeq == SetToSeq(Hists)
 N == Len(HSeq)
@@ -302,8 +337,10 @@ Emit ==
                                        exp |-> WideOut(i), watch |-> <<>>,
                                        \* the untyped cell takes the STATIC type of its initial value: with the operand
                                        \* visible that type is narrower and the program is another program
-                                       notwin |-> TRUE]])
-  /\ FreshCells /\ RhsLaw /\ WideLaw
+                                       notwin |-> TRUE]]
+        \o [i \in 1..Len(SelfSeq) |-> [id |-> "c13-self-holding-" \o SelfSeq[i], suite |-> "c13", prog |-> SelfProg(SelfSeq[i]),
+                                       exp |-> SelfOut(i), watch |-> <<>>]])
+  /\ FreshCells /\ RhsLaw /\ WideLaw /\ SelfLaw
   /\ ndJsonSerialize(IOEnv.VERIF_OUT \o "/c13_neg_cases.ndjson",
         [i \in 1..Len(NegSeq) |-> [id |-> "c13-neg-" \o ToString(i), suite |-> "c13", negative |-> TRUE,
                                    prog |-> NegProg(NegSeq[i].n, NegSeq[i].al),
